@@ -25,8 +25,14 @@ def parse_stdout(text):
     return results, snaps
 
 
-def run_impl(lines, fs="shm", fault=None, crash_at=None, clock=None, noatime=False, gran=None, harness=None, timeout=120, persistent=None, reuse=None, keep=False):
-    """reuse: directory of a previous run (kept with keep=True) whose root is operated on by a NEW process"""
+class MountUnavailable(Exception):
+    """this environment does not let us mount a tmpfs (not a defect of the code under test)"""
+
+
+def run_impl(lines, fs="shm", fault=None, crash_at=None, clock=None, noatime=False, gran=None, harness=None, timeout=120, persistent=None, reuse=None, keep=False, mounts=()):
+    """reuse: directory of a previous run (kept with keep=True) whose root is operated on by a NEW process;
+    mounts: directories (relative to the root) that are each given a FRESH tmpfs of their own - separate
+    filesystems whose inode numbers start over (unmounted before the directory is removed)"""
     base = "/dev/shm" if fs == "shm" else "/tmp"
     d = reuse or tempfile.mkdtemp(prefix="kscn", dir=base)
     root = os.path.join(d, "root")
@@ -49,7 +55,15 @@ def run_impl(lines, fs="shm", fault=None, crash_at=None, clock=None, noatime=Fal
     if gran:
         env["KSHIM_GRAN_NS"] = str(gran)
     text = "\n".join(("root " + root) if l.startswith("root") else l for l in lines) + "\n"
+    mounted = []
     try:
+        for m in mounts:
+            mp = os.path.join(root, m)
+            os.makedirs(mp, exist_ok=True)
+            if subprocess.run(["mount", "-t", "tmpfs", "-o", "size=16m", "none", mp], env=dict(C.ENV), stdout=subprocess.PIPE, stderr=subprocess.PIPE).returncode == 0:
+                mounted.append(mp)
+            else:
+                raise MountUnavailable("cannot mount a tmpfs at " + mp)
         p = subprocess.run([harness or C.KHARNESS_REL, "scenario"], input=text, stdout=subprocess.PIPE, stderr=subprocess.PIPE, env=env, text=True, encoding="utf-8", errors="surrogateescape", timeout=timeout)
         log = open(logp, encoding="utf-8", errors="surrogateescape").read().split("\n") if os.path.exists(logp) else []
         results, snaps = parse_stdout(p.stdout)
@@ -58,6 +72,8 @@ def run_impl(lines, fs="shm", fault=None, crash_at=None, clock=None, noatime=Fal
         r.dir = d
         return r
     finally:
+        for mp in reversed(mounted):
+            subprocess.run(["umount", "-l", mp], stdout=subprocess.PIPE, stderr=subprocess.PIPE)
         if not keep:
             shutil.rmtree(d, ignore_errors=True)
 
